@@ -165,7 +165,7 @@ PROPS.update({
 PROPS.update({
     "C12": {
         "level": "proof",
-        "text": "Kernel-checked: a panic in any hook surfaces as a panic JoinError with nothing running after it (C04/C05 theorems, which quantify over all runs including every crash point), the victim's pending and later senders complete with errors (C03.completes), the deliberate deadlock panic changes nothing of other actors (deadlock_panic_is_local), the wait-for map is never corrupted in any reachable state (graph_never_corrupted = the C15 invariant), asks to a dead actor are resumable. The lock is released before the panic (extracted). Real side: multi-actor histories with scripted panics at arbitrary handler positions, replayed on the protocol model, plus a poisoned-lock probe after every macro-step; single-actor scripts panic in on_start / k-th handler / k-th on_run / on_stop and are compared step by step. Stress scenario `hookpanic` (see C04): the panic is reported, nothing queued behind it is handled, later sends fail. backlog mode `failing3`: the on_run pass that returns Err first sends two messages to its own actor; the failed actor handles neither.",
+        "text": "Kernel-checked: a panic in any hook surfaces as a panic JoinError with nothing running after it (C04/C05 theorems, which quantify over all runs including every crash point), the victim's pending and later senders complete with errors (C03.completes), the deliberate deadlock panic changes nothing of other actors (deadlock_panic_is_local), the wait-for map is never corrupted in any reachable state (graph_never_corrupted = the C15 invariant), asks to a dead actor are resumable. The lock is released before the panic (extracted). Real side: multi-actor histories with scripted panics at arbitrary handler positions, replayed on the protocol model, plus a poisoned-lock probe after every macro-step; single-actor scripts panic in on_start / k-th handler / k-th on_run / on_stop and are compared step by step. Stress scenario `hookpanic` (see C04): the panic is reported, nothing queued behind it is handled, later sends fail. backlog mode `failing3`: the on_run pass that returns Err first sends two messages to its own actor; the failed actor handles neither. afterend: sends of a u32, a () and a &str to an ended actor, made from a task of their own, each return an error - the sending task does not fail with the actor it wrote to.",
         "note": PROOF_NOTE + " Isolation of Tokio tasks (a panic unwinds only its task) is a property of the runtime, assumed.",
         "technique": "Lean 4 theorems on the actor model and on the wait-for protocol model + replay of real multi-actor histories on the model",
         "monitors": ["C03", "C04", "C05", "C13"],
@@ -176,7 +176,7 @@ PROPS.update({
     },
     "C14": {
         "level": "proof",
-        "text": "Kernel-checked: hasPath_spec (the function translated from has_path decides reachability in >= 1 step for every graph: the len() bound always suffices), graph_covers (every unanswered in-flight ask has its edge in every reachable state), closes_panics (self-ask or any chain of in-flight asks back to the asker => the ask panics with the cycle path, inserts no edge, for every cycle length and creation order), waits_otherwise, no_one_left_waiting, asks_to_dead_are_lost, late_reply_keeps_newer_edge (a reply that arrives after its asker gave up still calls clear_wait_for with the old token; in every reachable state that removes nothing, so the asker's newer edge stays visible), path_starts_with_caller. The protocol steps (check+insert under one lock, all four hooks scoped) are extracted, and so is the shape of the timed ask (timeout(d, self.ask(msg)): the protocol applies whatever the budget, zero included - generated histories and a corpus history use 0 ms budgets). Real side: random ask topologies (cycles of length 1-5, timeouts, panics, kills) replayed on the model: every model-predicted deadlock must be a real panic with the same cycle path; translation differential on 11,886 graph queries. Peers whose on_run fails reach on_stop through the error path (`runerr<k>`): cycles closed by asks made there are part of the generated histories and of the corpus. Stress scenario `cyclerace` (all-features build): two actors on two OS threads ask each other at the same instant behind a spin barrier, 1500 rounds: one of the two asks is always reported. Stress scenario `slowlog` (all-features build): three actors on three OS threads under a tracing subscriber that takes up to 50 ms for some of the crate's events; an ask whose deadline races its reply, then an ask that closes a cycle through the same asker: the closing ask always panics (60 rounds quick, 240 thorough).",
+        "text": "Kernel-checked: hasPath_spec (the function translated from has_path decides reachability in >= 1 step for every graph: the len() bound always suffices), graph_covers (every unanswered in-flight ask has its edge in every reachable state), closes_panics (self-ask or any chain of in-flight asks back to the asker => the ask panics with the cycle path, inserts no edge, for every cycle length and creation order), waits_otherwise, no_one_left_waiting, asks_to_dead_are_lost, late_reply_keeps_newer_edge (a reply that arrives after its asker gave up still calls clear_wait_for with the old token; in every reachable state that removes nothing, so the asker's newer edge stays visible), path_starts_with_caller. The protocol steps (check+insert under one lock, all four hooks scoped) are extracted, and so is the shape of the timed ask (timeout(d, self.ask(msg)): the protocol applies whatever the budget, zero included - generated histories and a corpus history use 0 ms budgets). Real side: random ask topologies (cycles of length 1-5, timeouts, panics, kills) replayed on the model: every model-predicted deadlock must be a real panic with the same cycle path; translation differential on 11,886 graph queries. Peers whose on_run fails reach on_stop through the error path (`runerr<k>`): cycles closed by asks made there are part of the generated histories and of the corpus. Stress scenario `cyclerace` (all-features build): two actors on two OS threads ask each other at the same instant behind a spin barrier, 1500 rounds: one of the two asks is always reported. Stress scenario `slowlog` (all-features build): three actors on three OS threads under a tracing subscriber that takes up to 50 ms for some of the crate's events; an ask whose deadline races its reply, then an ask that closes a cycle through the same asker: the closing ask always panics (60 rounds quick, 240 thorough). Corpus history c14_ring_of_ten.net: a cycle of ten actors is reported like any other (the net harness runs up to 16 peers).",
         "note": PROOF_NOTE + " Asks awaited concurrently inside one hook are outside the property (sequential asks only).",
         "technique": "Lean 4 proof (pigeonhole bound for the translated graph walk; protocol invariant) + replay of real histories on the protocol model",
         "monitors": ["C03"],
@@ -212,7 +212,7 @@ PROPS.update({
     },
     "C17": {
         "level": "proof",
-        "text": "PARTIAL (the wall-clock deadline bound is checked on real runs only, see the end of this text). Kernel-checked: aliases (tell_blocking/ask_blocking delegate to blocking_tell/blocking_ask and the dispatchers pick the timeout/no-timeout implementation: extracted), blocking_same_paths (blocking variants build the same envelope and use the same sender as tell/ask; timeout variants run tell/ask under tokio::time::timeout on a helper thread with a timer runtime: extracted), blocking_inherits (every label-list theorem covers callers on any thread: at-most-once, rejected-never, reply integrity, dead letters). Real side (multi-thread runtime, real clock): 1/4/16 plain threads issuing all six blocking forms against a live actor (delivery exactly once, per-thread order, reply integrity, aliases ignore the timeout); deadlines against a slow actor with a full mailbox (not early, not later than deadline + 300 ms); stopped actor (every variant fails at once with Send and a dead letter); timeout variants called from inside a runtime context (no panic). NOT proved: the wall-clock bound itself (it is a property of the OS scheduler, thread spawn and Tokio timer; checked with slack on real runs only). The deprecated aliases given Some(30 ms) against a full mailbox / a slow handler wait like the None forms (b9); a blocking call that timed out records exactly one dead letter whatever happens to the actor afterwards (b10). (c3) a handler's timed blocking_tell into its own full mailbox times out like tell_with_timeout; (b13) timed blocking calls on different threads do not wait for one another; the blocking scenario is run a second time on the build with all optional features. blocking (b15): a timed blocking_tell that timed out on a full mailbox says nothing about the next one, which waits for the slot within its own budget.",
+        "text": "PARTIAL (the wall-clock deadline bound is checked on real runs only, see the end of this text). Kernel-checked: aliases (tell_blocking/ask_blocking delegate to blocking_tell/blocking_ask and the dispatchers pick the timeout/no-timeout implementation: extracted), blocking_same_paths (blocking variants build the same envelope and use the same sender as tell/ask; timeout variants run tell/ask under tokio::time::timeout on a helper thread with a timer runtime: extracted), blocking_inherits (every label-list theorem covers callers on any thread: at-most-once, rejected-never, reply integrity, dead letters). Real side (multi-thread runtime, real clock): 1/4/16 plain threads issuing all six blocking forms against a live actor (delivery exactly once, per-thread order, reply integrity, aliases ignore the timeout); deadlines against a slow actor with a full mailbox (not early, not later than deadline + 300 ms); stopped actor (every variant fails at once with Send and a dead letter); timeout variants called from inside a runtime context (no panic). NOT proved: the wall-clock bound itself (it is a property of the OS scheduler, thread spawn and Tokio timer; checked with slack on real runs only). The deprecated aliases given Some(30 ms) against a full mailbox / a slow handler wait like the None forms (b9); a blocking call that timed out records exactly one dead letter whatever happens to the actor afterwards (b10). (c3) a handler's timed blocking_tell into its own full mailbox times out like tell_with_timeout; (b13) timed blocking calls on different threads do not wait for one another; the blocking scenario is run a second time on the build with all optional features. blocking (b15): a timed blocking_tell that timed out on a full mailbox says nothing about the next one, which waits for the slot within its own budget. blocking (b16): under a subscriber that takes 8-40 ms per event, a timed blocking call that times out returns with its one dead letter already recorded, as the async variants do.",
         "note": PROOF_NOTE + " The blocking API needs real threads; the step-by-step correspondence (single-threaded, paused clock) cannot run it, so the real side is oracle-only.",
         "technique": "Lean 4 theorems on the model + extracted send-path equalities; real-thread stress runs under property oracles",
         "monitors": ["C01", "C03", "C13"],
@@ -226,11 +226,11 @@ PROPS.update({
 PROPS.update({
     "C20": {
         "level": "proof",
-        "text": "Kernel-checked on the collector translated from src/metrics/collector.rs on every run: count_len (message_count = number of records, any sequence), count_monotone / never_decreases, avg_le_max (via the invariant total <= count*max, saturation included), max_ge_each (max >= every recorded duration, capped at u64::MAX ns), snapshot_agrees; on the actor model: count_exact (in every reachable state message_count + [a handler is running] = number of handlers entered; stop markers and leftovers never enter a handler), max_ge_handler. The guard (records once, on drop, elapsed time) and its placement (one site, envelope arm, straight before the handler call, alive to the end of the arm) are extracted shape lemmas. Real side: harness built with the metrics feature (and all others); after every macro-step of every seeded script every live strong or weak-upgradable handle is read: message_count() = handlers entered and left (harness's own counter), never decreases, avg <= max, max >= the longest time measured strictly inside a handler body, metrics() snapshot = accessors, all handles agree, values stay readable after the actor ended (handles outlive it in most scripts); translation differential for the collector (tables). Script family `streak`: 130-190 handlers that finish at once followed by one that is held for milliseconds of real time, so that sampling or adaptive shortcuts in the guard show up as max < time demonstrably spent in a handler.",
+        "text": "Kernel-checked on the collector translated from src/metrics/collector.rs on every run: count_len (message_count = number of records, any sequence), count_monotone / never_decreases, avg_le_max (via the invariant total <= count*max, saturation included), max_ge_each (max >= every recorded duration, capped at u64::MAX ns), snapshot_agrees; on the actor model: count_exact (in every reachable state message_count + [a handler is running] = number of handlers entered; stop markers and leftovers never enter a handler), max_ge_handler. The guard (records once, on drop, elapsed time) and its placement (one site, envelope arm, straight before the handler call, alive to the end of the arm) are extracted shape lemmas. Real side: harness built with the metrics feature (and all others); after every macro-step of every seeded script every live strong or weak-upgradable handle is read: message_count() = handlers entered and left (harness's own counter), never decreases, avg <= max, max >= the longest time measured strictly inside a handler body, metrics() snapshot = accessors, all handles agree, values stay readable after the actor ended (handles outlive it in most scripts); translation differential for the collector (tables). Script family `streak`: 130-190 handlers that finish at once followed by one that is held for milliseconds of real time, so that sampling or adaptive shortcuts in the guard show up as max < time demonstrably spent in a handler. Stress scenario `metabort` (all-features build): three handlers entered, the third left by JoinHandle::abort / a panic / the runtime being dropped while it is suspended: message_count() = 3 afterwards and max_processing_time() covers the time it ran.",
         "note": PROOF_NOTE + " Durations come from std::time::Instant; the oracle compares max against a lower bound measured inside the handler, never against exact times.",
         "technique": "Lean 4 proofs on the translated collector and on the actor model + extracted guard placement + metrics oracle at every quiescent point of the correspondence runs (metrics build)",
         "monitors": ["C04"],
-        "extra": ["featcorr", "tables"],
+        "extra": ["featcorr", "tables", "stress"],
         "corr": corr(["mixed", "shutdown"], nq=60, nt=500),
         "extract_items": ["Metrics", "metrics_guard_drop", "metrics_placement", "lifecycle"],
         "assumptions": COMMON_ASSUME + ["Relaxed atomics: readers at quiescence see all earlier records (the harness reads after the actor task has yielded)"],
@@ -254,7 +254,7 @@ PROPS.update({
 PROPS.update({
     "C19": {
         "level": "proof",
-        "text": "Kernel-checked: decision_table - for every form of the #[handler] attribute (bare, any list of result/no_log/unknown options in any order and multiplicity, name-value), every declared return type (none, any path type, any other type) and both answers to 'is it really a Result', the macro's decision (compile error / impl that logs Err after tell / impl that logs nothing) equals the documented table stated independently; corollaries no_log_never_logs, result_and_no_log_is_error, non_result_logs_nothing, result_spelling_logs. is_result_type and the should_generate block are translated from rsactor-derive/src/lib.rs on every run; option parsing and the quote! templates (Reply = declared return type, handle = self.method(msg, actor_ref).await, generated on_tell_result = `if let Err(ref e) = result { error!(..) }` only, derive(Actor) = Args Self / Infallible / Ok(args), generics forwarded) are extracted shape lemmas; the runtime calls on_tell_result only without a reply channel (handle_message_shape). Real side: a generated corpus of actor programs over the grammar return-type spelling (15: unit, plain, Result in five spellings incl. bare fmt::Result and bare/generic aliases, alias not named Result, Option, tuple, Box, reference, a user type named Result) x attribute form (11) x actor kind (struct, enum, generic, generic with where clause) x message kind (plain, generic), each with co-existing non-handler methods, compiled against the real macros: programs the model calls errors must fail to compile (without any use site, so only the macro or its output can fail), the others are run through ask and tell with Ok and Err values: replies equal the method's value, error events after tell(Err) = 1 iff the model says 'log' (with the error's Display text), 0 after ask and after tell(Ok), the handler ran once per message, derive(Actor) hands back its argument. Runtime half, kernel-checked on the actor model: tell_result_adjacent (in every run tellResult/replySent occur only immediately after the handler of the same message returned, at most one of them, never after a panic) and result_follows_kind (a tell's handler is followed by on_tell_result and no reply, an ask's by its reply and no on_tell_result); the same automaton (C19.accepts) and the kind-aware C19.adjacent run on every real correspondence trace. Real threads: in the blocking stress scenario the actor overrides on_tell_result: after every tell-family blocking form (blocking_tell with and without timeout, tell_blocking) it is invoked exactly once with the handler's value, after ask-family forms never. Stress askjoin: a handler that returns a JoinHandle - ask_join gives exactly what awaiting that handle gives, whatever happens to the actor meanwhile. Every corpus program also issues ask_with_timeout(.., ZERO) with a failing handler: no error log (an ask is never a tell), the handler runs. hookpanic: after a panic in any hook of one actor (on_tell_result included) a fresh actor's handled tell is still followed by exactly one on_tell_result and its ask by none.",
+        "text": "Kernel-checked: decision_table - for every form of the #[handler] attribute (bare, any list of result/no_log/unknown options in any order and multiplicity, name-value), every declared return type (none, any path type, any other type) and both answers to 'is it really a Result', the macro's decision (compile error / impl that logs Err after tell / impl that logs nothing) equals the documented table stated independently; corollaries no_log_never_logs, result_and_no_log_is_error, non_result_logs_nothing, result_spelling_logs. is_result_type and the should_generate block are translated from rsactor-derive/src/lib.rs on every run; option parsing and the quote! templates (Reply = declared return type, handle = self.method(msg, actor_ref).await, generated on_tell_result = `if let Err(ref e) = result { error!(..) }` only, derive(Actor) = Args Self / Infallible / Ok(args), generics forwarded) are extracted shape lemmas; the runtime calls on_tell_result only without a reply channel (handle_message_shape). Real side: a generated corpus of actor programs over the grammar return-type spelling (15: unit, plain, Result in five spellings incl. bare fmt::Result and bare/generic aliases, alias not named Result, Option, tuple, Box, reference, a user type named Result) x attribute form (11) x actor kind (struct, enum, generic, generic with where clause) x message kind (plain, generic), each with co-existing non-handler methods, compiled against the real macros: programs the model calls errors must fail to compile (without any use site, so only the macro or its output can fail), the others are run through ask and tell with Ok and Err values: replies equal the method's value, error events after tell(Err) = 1 iff the model says 'log' (with the error's Display text), 0 after ask and after tell(Ok), the handler ran once per message, derive(Actor) hands back its argument. Runtime half, kernel-checked on the actor model: tell_result_adjacent (in every run tellResult/replySent occur only immediately after the handler of the same message returned, at most one of them, never after a panic) and result_follows_kind (a tell's handler is followed by on_tell_result and no reply, an ask's by its reply and no on_tell_result); the same automaton (C19.accepts) and the kind-aware C19.adjacent run on every real correspondence trace. Real threads: in the blocking stress scenario the actor overrides on_tell_result: after every tell-family blocking form (blocking_tell with and without timeout, tell_blocking) it is invoked exactly once with the handler's value, after ask-family forms never. Stress askjoin: a handler that returns a JoinHandle - ask_join gives exactly what awaiting that handle gives, whatever happens to the actor meanwhile. Every corpus program also issues ask_with_timeout(.., ZERO) with a failing handler: no error log (an ask is never a tell), the handler runs. hookpanic: after a panic in any hook of one actor (on_tell_result included) a fresh actor's handled tell is still followed by exactly one on_tell_result and its ask by none. Every corpus program also carries an attribute below #[handler] (#[allow(non_snake_case)] under #![deny(non_snake_case)]): the method is re-emitted as written, so the program must still compile.",
         "note": PROOF_NOTE + " rustc's own behaviour (trait resolution, `if let Err` typing) is part of the trusted base of the corpus run.",
         "technique": "Lean 4 proof of the decision table over definitions translated from the macro source + extracted templates + generated program corpus compiled and run against the real macros",
         "monitors": ["C19", "C01"],
